@@ -109,6 +109,19 @@ CLAIMS = {
              "contract + allocation model), model.number_of_rows/columns only record sizes, default=None in the add_* proofs. One "
              "genuine defect repaired (count validation). Trusted: " + TB,
         technique="contract-based deductive verification (quantified VCs over grid + heap arrays, class invariant => all histories) + bounded reference-grid stand-in"),
+    "C12": dict(
+        category="other", design="DESIGN.md section 7 C12",
+        text="Mixed. Proved (contract-based, real source): Cell._set_merge for its three cases (anchor: is_merged + size; placeholder: "
+             "rect, merge_range == A1 text of the rectangle via xl_range's contract, inner-edge flags; unmerged), for all positions and "
+             "rectangles. The stored merge map's pack/unpack expressions are extracted from the source and checked for all positions "
+             "within the documented table limits: refuted for rows >= 65536 (open known finding, replayed on a real save/reopen), so "
+             "not every obligation is discharged and the level is not 'proof'. The picture on whole documents (every cell of the "
+             "rectangle, cells outside, merge_ranges, reload, writes, insert/delete after the merge) is a bounded run-time-contract "
+             "stand-in over all rectangles of a 4x4 (6x6) table.",
+        note="Assumes: xl_range through its C10 contract; Table.merge_cells' loops are not under contract (bounded only). One genuine "
+             "defect repaired (merge_cells converted only interior cells), two recorded as open known findings (merge map not shifted "
+             "by insert/delete; 16-bit packing vs 1,000,000 rows). Trusted: " + TB,
+        technique="contract-based deductive verification of the kernels + bounded run-time-contract stand-in (mixed)"),
 }
 NA_REASON = "check not built yet (build in progress; see DESIGN.md section 7 for the plan)"
 
